@@ -400,6 +400,161 @@ def prebuild(ctx):
     ctx.coq_build_cached(["C14/GenEval.v", "C14/EvalSound.v", "C14/PropsEval.v"])
     (COQ / "C14" / "GenRange.v").write_text(gen_range())
     _range_build(ctx)
+    from vlib import c14_clients
+    text, _ = c14_clients.gen_coq()
+    (COQ / "C14" / "GenRangeClients.v").write_text(text)
+    ctx.coq_build_cached(["C14/GenRangeClients.v", "C14/RangeClients.v", "C14/PropsClients.v"], deps=RANGE_PRE, timeout=900)
+
+
+# ---------------------------------------------------------------- range-based check removal (clients of the range kernel)
+def part_clients(ctx):
+    """Decision kernels of overflow_elimination / assert_elimination / algebraic_optimization (signextend, range cmp):
+    sliced from the pass methods, translated, proved (RangeClients.v); validated against CPython and searched with
+    the property's own oracle (a removed check must pass for every value in the range)."""
+    from vlib import c14_clients
+    from vyper.venom.basicblock import IRLiteral
+    from vyper.venom.passes.sccp.eval import eval_arith
+    gen_err = None
+    try:
+        text, src = c14_clients.gen_coq()
+        (COQ / "C14" / "GenRangeClients.v").write_text(text)
+        mod, _ = c14_clients.load_module()
+    except Unsupported as e:
+        gen_err = str(e)
+        try:
+            mod, _ = c14_clients.load_module()
+        except Exception:
+            mod = None
+    ranges = [r for r in range_grid(ctx)]
+    rnd = ctx.rng("clients")
+    found = False
+    n = 0
+
+    def ev(op, *args):
+        return eval_arith(op, [IRLiteral(x) for x in reversed(args)])
+
+    def report(kind, call, detail, key):
+        nonlocal found
+        found = True
+        ctx.violation("failing-input", f"range-based check removal is unsound: {kind}", dict(detail, call=call), key=key)
+
+    if mod is not None:
+        pr = [(r, _vr_py(r)) for r in ranges]
+        mem = {i: (_members(r, rnd) if r[0] != "BOT" else []) for i, (r, _) in enumerate(pr)}
+        hit = set()
+        for i, (ra, va) in enumerate(pr):
+            # assert elimination
+            try:
+                ez = mod._range_excludes_zero(va)
+            except Exception as e:
+                ez = None
+            n += 1
+            if ez and "ez" not in hit and any(a == 0 for a in mem[i]):
+                hit.add("ez"); report("assert removed although the value can be zero", f"_range_excludes_zero({ra})", {"a": "0"}, f"clients:excludes_zero:{ra}")
+            # signextend no-op
+            for nb in (0, 1, 15, 30):
+                try:
+                    c = mod.signextend_noop_cond(nb, va)
+                except Exception:
+                    c = None
+                n += 1
+                if c and "se" not in hit:
+                    for a in mem[i]:
+                        if ev("signextend", nb, a) != a:
+                            hit.add("se"); report("signextend folded to a no-op although it changes the value",
+                                                  f"signextend_noop_cond({nb}, {ra})", {"a": str(a)}, f"clients:signextend:{nb}:{ra}")
+                            break
+            # range cmp
+            for lit in (0, 1, 5, 100, 255, 2**255 - 1, 2**255, 2**256 - 1, -1, -128):
+                for is_gt in (True, False):
+                    for signed in (True, False):
+                        for lf in (True, False):
+                            try:
+                                k = mod.range_cmp_kernel(lit, va, is_gt, signed, lf)
+                            except Exception:
+                                k = None
+                            n += 1
+                            if k is None or "rc" in hit:
+                                continue
+                            op = ("s" if signed else "") + ("gt" if is_gt else "lt")
+                            for a in mem[i]:
+                                res = ev(op, lit, a) if lf else ev(op, a, lit)
+                                if res != k:
+                                    hit.add("rc"); report("comparison folded to a constant that is wrong for a value in the range",
+                                                          f"range_cmp_kernel({lit}, {ra}, is_gt={is_gt}, signed={signed}, lit_is_first={lf}) = {k}",
+                                                          {"a": str(a), "actual": str(res)}, f"clients:range_cmp:{op}:{lit}:{ra}:{lf}")
+                                    break
+            for j, (rb, vb) in enumerate(pr):
+                for nm, fn, chk in (("add", mod.add_elim_cond, lambda a, b: ev("iszero", ev("lt", ev("add", a, b), a))),
+                                    ("sub", mod.sub_elim_cond, lambda a, b: ev("iszero", ev("gt", ev("sub", a, b), a)))):
+                    try:
+                        c = fn(va, vb)
+                    except Exception:
+                        c = None
+                    n += 1
+                    if c and nm not in hit:
+                        for a in mem[i]:
+                            for b in mem[j]:
+                                if chk(a, b) != 1:
+                                    hit.add(nm); report(f"safe{nm} overflow check removed although it can fail",
+                                                        f"{nm}_elim_cond({ra}, {rb})", {"a": str(a), "b": str(b)}, f"clients:{nm}:{ra}:{rb}")
+                                    break
+                            if nm in hit:
+                                break
+    ctx.corr["range_client_decisions"] = n
+    if gen_err is not None:
+        if not found:
+            ctx.violation("translator-rejected", "cannot slice/translate the range-based decision code: " + gen_err, {"error": gen_err})
+        return n
+    b = ctx.coq_build_cached(["C14/GenRangeClients.v", "C14/RangeClients.v", "C14/PropsClients.v"],
+                             deps=RANGE_PRE, timeout=900)
+    if (COQ / "C14" / "GenRangeClients.vo").exists() and (b["ok"] or "GenRangeClients" not in b.get("file", "")):
+        # translator validation: model vs CPython on the grid (rolling hash, as for the evaluators)
+        imports = ("From Verif Require Import Base.PyInt C14.RangeBase C14.GenRangeClients.\n"
+                   f"Definition RS : list vrange := [{'; '.join(_vr_coq(r) for r in ranges)}].\n"
+                   "Definition eb (r : res bool) : Z := match r with Ok true => 1 | Ok false => 0 | Err _ => 2 end.\n"
+                   "Definition eo (r : res (option Z)) : Z := match r with Ok (Some k) => k | Ok None => 7 | Err _ => 9 end.\n"
+                   f"Definition hashl (l : list Z) : Z := fold_left (fun h x => (h * {HASH_B} + (x mod {HASH_P})) mod {HASH_P}) l 7.")
+        lits = [0, 1, 5, 255, 2**255 - 1, 2**255, 2**256 - 1, -1, -128]
+        exprs = ["[hashl (map (fun p => eb (add_elim_cond (fst p) (snd p))) (list_prod RS RS))]",
+                 "[hashl (map (fun p => eb (sub_elim_cond (fst p) (snd p))) (list_prod RS RS))]",
+                 "[hashl (map (fun r => eb (_range_excludes_zero r)) RS)]",
+                 "[hashl (flat_map (fun r => map (fun n => eb (signextend_noop_cond n r)) [0; 1; 15; 30]) RS)]",
+                 "[hashl (flat_map (fun r => flat_map (fun l => flat_map (fun g => flat_map (fun s => map (fun f => "
+                 "eo (range_cmp_kernel l r g s f)) [true; false]) [true; false]) [true; false]) "
+                 + coqrun.zlist(lits) + ") RS)]"]
+        outs = coqrun.eval_zlists(imports, exprs, "c14clients", shard=5)
+        pr = [_vr_py(r) for r in ranges]
+
+        def sb(f):
+            try:
+                return 1 if f() else 0
+            except Exception:
+                return 2
+
+        def so(f):
+            try:
+                k = f()
+                return 7 if k is None else k
+            except Exception:
+                return 9
+        py = [
+            _hash([sb(lambda: mod.add_elim_cond(a, b)) for a in pr for b in pr]),
+            _hash([sb(lambda: mod.sub_elim_cond(a, b)) for a in pr for b in pr]),
+            _hash([sb(lambda: mod._range_excludes_zero(r)) for r in pr]),
+            _hash([sb(lambda: mod.signextend_noop_cond(nb, r)) for r in pr for nb in (0, 1, 15, 30)]),
+            _hash([so(lambda: mod.range_cmp_kernel(l, r, g, s_, f)) for r in pr for l in lits for g in (True, False)
+                   for s_ in (True, False) for f in (True, False)]),
+        ]
+        names = ["add_elim_cond", "sub_elim_cond", "_range_excludes_zero", "signextend_noop_cond", "range_cmp_kernel"]
+        for nm, o, p_ in zip(names, outs, py):
+            if o[0] != p_:
+                ctx.violation("correspondence-broken", f"py2coq model of sliced decision code {nm} disagrees with CPython", {"fn": nm})
+    if not b["ok"] and not found:
+        ctx.violation("theorem-broken", f"{b.get('failed_lemma')} in {b['file']}",
+                      {"theorem": b.get("failed_lemma"), "file": b["file"], "coq_output": b["out"][-1500:]})
+    ctx.samples.append({"sub_elim_cond": [["IV", 50, 100], ["IV", 5, 50]], "means": "assert iszero(gt(sub x y, x)) may be deleted"})
+    return n
 
 
 def run(ctx):
@@ -411,7 +566,9 @@ def run(ctx):
     total += part_eval_kernel(ctx)
     ctx.log(f"eval kernel {time.time()-t:.0f}s"); t = time.time()
     total += part_range(ctx)
-    ctx.log(f"range {time.time()-t:.0f}s")
+    ctx.log(f"range {time.time()-t:.0f}s"); t = time.time()
+    total += part_clients(ctx)
+    ctx.log(f"range clients {time.time()-t:.0f}s")
     ctx.corr.setdefault("evaluations", 0)
     ctx.corr["evaluations"] += total
     ctx.corr["distinct_nontrivial"] = total
